@@ -19,7 +19,7 @@ pub fn check_bytes(bytes: &[u8]) -> Result<bool, String> {
     let got = catch_unwind(AssertUnwindSafe(|| Reader::new(Cursor::new(bytes))));
     match got {
         Err(p) => Err(format!("Reader::new panicked: {}", panic_message(&p))),
-        Ok(Ok(r)) => match want {
+        Ok(Ok(_)) => match want {
             None => Err("Reader::new accepted a byte string that does not end with a complete valid trailer".into()),
             Some(_) => Ok(true),
         },
